@@ -299,7 +299,10 @@ static int decode(int id, vh_buf *shape, int *havepos, int *posx, int *posy) {
         int sx, sy; unsigned char *tmp;
         if (off + 4 > o->n) return -1;
         sx = be16(o->p + off); sy = be16(o->p + off + 2); off += 4;
-        if (x + w > PW[id] || y + h > PH[id] || sx + w > PW[id] || sy + h > PH[id]) return -1;
+        if (x + w > PW[id] || y + h > PH[id] || sx + w > PW[id] || sy + h > PH[id]) {
+          if (getenv("VH_VERBOSE")) fprintf(stderr, "c%d: CopyRect %d,%d %dx%d from %d,%d outside the %dx%d picture\n", id, x, y, w, h, sx, sy, PW[id], PH[id]);
+          return -1;
+        }
         tmp = (unsigned char *)malloc((size_t)w * h * CB[id] + 1);
         for (j = 0; j < h; j++) memcpy(tmp + (size_t)j * w * CB[id], pic[id] + ((size_t)(sy + j) * PW[id] + sx) * CB[id], (size_t)w * CB[id]);
         for (j = 0; j < h; j++) {
